@@ -1,6 +1,8 @@
 (* Check/SyncerCheck.v — correspondence check for Model/Syncer.v (C02, C05): the harness writes the
-   proposer chain it obtained from a real aggregator Manager (as symbolic terms), the history it drove
-   through a real syncing Manager, and what it observed after every item; [mismatches] lists the cases
+   proposer chain it obtained from a real aggregator Manager (as symbolic terms; the aggregator and the
+   syncing node are configured with the case's signature payload provider), the history it drove
+   through a real syncing Manager (events, some with a store.Height() call of their handling made to
+   fail, clean restarts, crashes), and what it observed after every item; [mismatches] lists the cases
    on which the model disagrees. *)
 From Coq Require Import String NArith ZArith List Bool.
 From Verif Require Import Base.KV Base.Keys Model.Types Model.Syncer.
@@ -44,6 +46,10 @@ Record obs := {
                                         position Manager.daHeight the process started with / is at *)
 }.
 
+(* short form for the generated case files *)
+Definition ob (h st : N) (s : option (N * Z * root)) (l : N * Z * root) (c : N) (d1 : option N) (d2 d3 : N) : obs :=
+  {| o_height := h; o_status := st; o_state := s; o_last := l; o_calls := c; o_da := (d1, d2, d3) |}.
+
 Inductive wshape := WS | WB (n : N) | WT (n : N) | WOther.
 Definition prim_shape (p : prim sval) : wshape :=
   match p with
@@ -58,11 +64,17 @@ Definition wshape_eqb (a b : wshape) : bool :=
   match a, b with
   | WS, WS => true | WB x, WB y | WT x, WT y => x =? y | WOther, WOther => true | _, _ => false end.
 
+(* short forms for the generated case files *)
+Definition FE (e : event) : fitem := FEv e None.              (* an event whose handling met no read fault *)
+Definition FF (e : event) (n : nat) : fitem := FEv e (Some n).  (* the (n+1)-th store.Height() call of its handling failed *)
+
 Record scase := {
   sc_cfg : config;
+  sc_prov : N;                                    (* signature payload provider of the chain and of the syncing node:
+                                                     0 = types.DefaultSignaturePayloadProvider, p > 0 = the harness's p-th *)
   sc_exec : list (root * N * root);
   sc_chain : list block;                          (* the aggregator's chain *)
-  sc_hist : list item;
+  sc_hist : list fitem;
   sc_obs : list obs;                              (* after the first boot and after every item *)
   sc_ws : list (list wshape);                     (* recorded atomic writes of the first boot and of every item *)
   sc_log : list (N * Z * root * list tx);         (* the syncing node's ExecuteTxs calls at the end *)
@@ -71,23 +83,24 @@ Record scase := {
 
 Section W.
   Variable exec : root -> N -> Z -> list tx -> root.
+  Variable prov : N.
 
-  Definition item_ws (g : config) (nd : node) (i : item) : list wr :=
+  Definition item_ws (g : config) (nd : node) (i : fitem) : list wr :=
     match i with
-    | IEv e => snd (process exec nd e)
-    | IRestart => snd (boot exec g (n_disk nd) (restart_files nd) (n_log nd))
-    | ICrash e k =>
-        let ws := snd (process exec nd e) in
-        firstn k ws ++ snd (boot exec g (crash_after k (n_disk nd) ws) (n_files nd) (n_log nd))
-    | ICrashBoot k =>
-        let bw := snd (boot exec g (n_disk nd) (n_files nd) (n_log nd)) in
-        firstn k bw ++ snd (boot exec g (crash_after k (n_disk nd) bw) (n_files nd) (n_log nd))
+    | FEv e flt => snd (process_f exec prov nd e flt)
+    | FRestart => snd (boot_p exec prov g (n_disk nd) (restart_files nd) (n_log nd))
+    | FCrash e k =>
+        let ws := snd (process_f exec prov nd e None) in
+        firstn k ws ++ snd (boot_p exec prov g (crash_after k (n_disk nd) ws) (n_files nd) (n_log nd))
+    | FCrashBoot k =>
+        let bw := snd (boot_p exec prov g (n_disk nd) (n_files nd) (n_log nd)) in
+        firstn k bw ++ snd (boot_p exec prov g (crash_after k (n_disk nd) bw) (n_files nd) (n_log nd))
     end.
 
-  Fixpoint trace (g : config) (nd : node) (h : list item) : list (node * list wr) :=
+  Fixpoint trace (g : config) (nd : node) (h : list fitem) : list (node * list wr) :=
     match h with
     | [] => []
-    | i :: r => let nd' := step exec g nd i in (nd', item_ws g nd i) :: trace g nd' r
+    | i :: r => let nd' := fstep exec prov g nd i in (nd', item_ws g nd i) :: trace g nd' r
     end.
 End W.
 
@@ -132,19 +145,21 @@ Definition block_agrees (m : img) (e : N * option (sheader * list tx)) : bool :=
   end.
 
 (* 1 = observations differ, 2 = write log differs, 3 = execution calls differ, 4 = final blocks differ,
-   5 = the aggregator's chain is not ChainValid (the hypothesis of the theorems) *)
+   5 = the aggregator's chain is not ChainValidP for the case's provider (the hypothesis of the theorems:
+       every header signed by the proposer over the payload of that provider) *)
 Definition check_case (c : scase) : list N :=
   let ex := exec_of (sc_exec c) in
   let g := sc_cfg c in
-  let nd0 := init ex g in
-  let tr := (nd0, snd (boot ex g [] empty_cache [])) :: trace ex g nd0 (sc_hist c) in
+  let pv := sc_prov c in
+  let nd0 := finit ex pv g in
+  let tr := (nd0, snd (boot_p ex pv g [] empty_cache [])) :: trace ex pv g nd0 (sc_hist c) in
   let final := last (map fst tr) nd0 in
   (if list_eqb obs_agrees (map fst tr) (sc_obs c) then [] else [1]) ++
   (if list_eqb (list_eqb wshape_eqb) (map (fun x => map write_shape (snd x)) tr) (sc_ws c) then [] else [2]) ++
   (if list_eqb call_agrees (n_log final) (sc_log c) then [] else [3]) ++
   (if forallb (block_agrees (n_disk final)) (sc_blocks c) then [] else [4]) ++
   (if (1 <=? g_initial g) && addr_eqb (g_proposer g) (Addr 1) &&
-      chain_fromb ex g 1 None (g_initial g) (g_time g) (g_initroot g) (sc_chain c) then [] else [5]).
+      chain_fromb_p ex pv g 1 None (g_initial g) (g_time g) (g_initroot g) (sc_chain c) then [] else [5]).
 
 Fixpoint mismatches_from (i : N) (cs : list scase) : list (N * list N) :=
   match cs with
